@@ -187,23 +187,21 @@ func refEntry(m refMsg) (string, bool) {
 }
 
 // ---- rrs: DecodeAnswers on a fresh entry ----
-func runRRS(r *lib.Run) func(a []string) string {
-	return func(a []string) string {
-		p := withCap(lib.UnHex(a[0]), lib.UnHex(a[1]))
-		off := atoi(a[2])
-		pre := lib.UnHex(a[3])
-		buf := make([]byte, len(pre), len(pre)+atoi(a[4]))
-		copy(buf, pre)
-		e := packet.NewDNSEntry()
-		res := guarded(func() string {
-			n, upd, err := e.DecodeAnswers(packet.DNS(p), off, buf)
-			if err != nil {
-				return errClass(err)
-			}
-			return fmt.Sprintf("ok:%d:%s", n, tf(upd))
-		})
-		return res + " " + dumpEntry(e)
-	}
+func rawRRS(a []string) string {
+	p := withCap(lib.UnHex(a[0]), lib.UnHex(a[1]))
+	off := atoi(a[2])
+	pre := lib.UnHex(a[3])
+	buf := make([]byte, len(pre), len(pre)+atoi(a[4]))
+	copy(buf, pre)
+	e := packet.NewDNSEntry()
+	res := guarded(func() string {
+		n, upd, err := e.DecodeAnswers(packet.DNS(p), off, buf)
+		if err != nil {
+			return errClass(err)
+		}
+		return fmt.Sprintf("ok:%d:%s", n, tf(upd))
+	})
+	return res + " " + dumpEntry(e)
 }
 
 // ---- pdns: ProcessDNS history ----
@@ -224,51 +222,48 @@ func dnsFrame(msg, spare []byte) []byte {
 	return withCap(f, spare)
 }
 
-func runPDNS(r *lib.Run) func(a []string) string {
-	return func(a []string) string {
-		s := session()
-		h := dns_naming.VerifNew(s)
-		var out []string
-		for step, m := range strings.Split(a[0], ";") {
-			f := strings.Split(m, ":")
-			msg, sp := lib.UnHex(f[0]), lib.UnHex(f[1])
-			frame, err := s.Parse(dnsFrame(msg, sp))
+func rawPDNS(a []string) string {
+	s := session()
+	h := dns_naming.VerifNew(s)
+	var out []string
+	for _, m := range strings.Split(a[0], ";") {
+		f := strings.Split(m, ":")
+		msg, sp := lib.UnHex(f[0]), lib.UnHex(f[1])
+		frame, err := s.Parse(dnsFrame(msg, sp))
+		if err != nil {
+			out = append(out, "parse-error")
+			continue
+		}
+		if !bytes.Equal(frame.Payload(), msg) {
+			out = append(out, "payload-mismatch")
+			continue
+		}
+		res := guarded(func() string {
+			e, err := h.ProcessDNS(frame)
 			if err != nil {
-				out = append(out, "parse-error")
-				continue
+				return errClass(err)
 			}
-			if !bytes.Equal(frame.Payload(), msg) {
-				out = append(out, "payload-mismatch")
-				continue
+			if e.IP4Records == nil && e.Name == "" {
+				return "none"
 			}
-			res := guarded(func() string {
-				e, err := h.ProcessDNS(frame)
-				if err != nil {
-					return errClass(err)
-				}
-				if e.IP4Records == nil && e.Name == "" {
-					return "none"
-				}
-				return "upd:" + lib.Hex([]byte(e.Name)) + ">" + dumpEntry(e)
-			})
-			out = append(out, res)
-			oraclePDNS(r, step, msg, res, "pdns "+a[0])
-		}
-		var names []string
-		for k := range h.DNSTable {
-			names = append(names, k)
-		}
-		sort.Slice(names, func(i, j int) bool { return bytes.Compare([]byte(names[i]), []byte(names[j])) < 0 })
-		var tbl []string
-		for _, k := range names {
-			e := h.DNSFind(k)
-			if e.Name != k {
-				r.Viol("pdns-table-key", fmt.Sprintf("DNSTable key %q holds entry named %q", k, e.Name), "pdns "+a[0])
-			}
-			tbl = append(tbl, lib.Hex([]byte(k))+">"+dumpEntry(e))
-		}
-		return strings.Join(out, ";") + " " + strings.Join(tbl, "|")
+			return "upd:" + lib.Hex([]byte(e.Name)) + ">" + dumpEntry(e)
+		})
+		out = append(out, res)
 	}
+	var names []string
+	for k := range h.DNSTable {
+		names = append(names, k)
+	}
+	sort.Slice(names, func(i, j int) bool { return bytes.Compare([]byte(names[i]), []byte(names[j])) < 0 })
+	var tbl []string
+	for _, k := range names {
+		e := h.DNSFind(k)
+		if e.Name != k {
+			tbl = append(tbl, "table-key-mismatch")
+		}
+		tbl = append(tbl, lib.Hex([]byte(k))+">"+dumpEntry(e))
+	}
+	return strings.Join(out, ";") + " " + strings.Join(tbl, "|")
 }
 
 // oraclePDNS: dnsmessage as independent implementation. On a message it accepts, ProcessDNS must not fail
@@ -328,22 +323,18 @@ func nbnsMessage(rdata []byte) []byte {
 	return b
 }
 
-func runNBNS(r *lib.Run) func(a []string) string {
-	return func(a []string) string {
-		rdata := lib.UnHex(a[0])
-		h := dns_naming.VerifNew(session())
-		msg := nbnsMessage(rdata)
-		return guarded(func() string {
-			n, err := h.ProcessNBNS(nil, packet.Ether(nil), msg)
-			if err != nil {
-				return errClass(err)
-			}
-			if n.Name == "" {
-				return "none"
-			}
-			return "name:" + lib.Hex([]byte(n.Name))
-		})
+func rawNBNS(a []string) string {
+	rdata := lib.UnHex(a[0])
+	h := dns_naming.VerifNew(session())
+	msg := nbnsMessage(rdata)
+	n, err := h.ProcessNBNS(nil, packet.Ether(nil), msg)
+	if err != nil {
+		return errClass(err)
 	}
+	if n.Name == "" {
+		return "none"
+	}
+	return "name:" + lib.Hex([]byte(n.Name))
 }
 
 // ---- nbenc / nbdec / nna: the unexported NetBIOS codecs through the verif hooks ----
@@ -353,38 +344,30 @@ func runNBEnc(r *lib.Run) func(a []string) string {
 	}
 }
 
-func runNBDec(r *lib.Run) func(a []string) string {
-	return func(a []string) string {
-		buf := withCap(lib.UnHex(a[0]), lib.UnHex(a[1]))
-		return guarded(func() string {
-			n, name, err := dns_naming.VerifDecodeNBNSName(buf)
-			if err != nil {
-				return errClass(err)
-			}
-			return fmt.Sprintf("%d %s", n, lib.Hex([]byte(name)))
-		})
+func rawNBDec(a []string) string {
+	buf := withCap(lib.UnHex(a[0]), lib.UnHex(a[1]))
+	n, name, err := dns_naming.VerifDecodeNBNSName(buf)
+	if err != nil {
+		return errClass(err)
 	}
+	return fmt.Sprintf("%d %s", n, lib.Hex([]byte(name)))
 }
 
-func runNNA(r *lib.Run) func(a []string) string {
-	return func(a []string) string {
-		b := lib.UnHex(a[0])
-		b = b[:len(b):len(b)]
-		return guarded(func() string {
-			names, err := dns_naming.VerifParseNodeNameArray(b)
-			if err != nil {
-				return errClass(err)
-			}
-			if len(names) == 0 {
-				return "none"
-			}
-			var out []string
-			for _, n := range names {
-				out = append(out, lib.Hex([]byte(n)))
-			}
-			return strings.Join(out, ",")
-		})
+func rawNNA(a []string) string {
+	b := lib.UnHex(a[0])
+	b = b[:len(b):len(b)]
+	names, err := dns_naming.VerifParseNodeNameArray(b)
+	if err != nil {
+		return errClass(err)
 	}
+	if len(names) == 0 {
+		return "none"
+	}
+	var out []string
+	for _, n := range names {
+		out = append(out, lib.Hex([]byte(n)))
+	}
+	return strings.Join(out, ",")
 }
 
 var _ = net.IPv4len
